@@ -1,4 +1,7 @@
 """C08 - state recovery replays exactly the missed packets, or falls back cleanly."""
+import json
+import time
+
 from lib.vlib import gZ, gN, gbool, glist, gopt
 
 HDR = "From SioV Require Import Base.GoSem Adapter.Session Adapter.SessionCheck.\n"
@@ -87,7 +90,9 @@ def classify(row):
 
 
 def history_suite(ctx, vh, name, args, shard=250):
+    t0 = time.time()
     rows = ctx.vh_jsonl(vh, "session", args)
+    ctx.note("suite %s: harness %.1fs" % (name, time.time() - t0))
     if rows is None:
         return
     late = [r for r in rows if r.get("late")]
@@ -145,6 +150,129 @@ def compact(row):
     return "[w=%s/2 ticks] " % row["w"] + " ; ".join(out)
 
 
+# ------------------------------------------------------------------ live end-to-end
+def live_term(c):
+    """c08LiveCase (harness/cmd/vh/session_live.go) -> SessionCheck.lcase literal, or None when the run
+    was disturbed by the environment (timeouts) and says nothing."""
+    if c.get("problems"):
+        return None
+    frames2 = c.get("frames2") or []
+    has_marker = any(f["kind"] == "event" and f["tag"] == 0 for f in frames2)
+    bins = {e["tag"]: bool(e.get("bin")) for e in c["emits"]}
+    wf = True
+    codes = []
+    for f in frames2:
+        if f["kind"] == "connect":
+            codes.append(0)
+        elif f["kind"] == "event" and f["tag"] == 0:
+            break
+        elif f["kind"] == "event" and f["tag"] > 0:
+            codes.append(f["tag"])
+            if not f.get("whole") or bool(f.get("bin")) != bins.get(f["tag"], False) or not f.get("off"):
+                wf = False
+            if f.get("bin") and f.get("att", 0) != 1:
+                wf = False
+        else:
+            wf = False
+    if not has_marker and wf:
+        return None   # the stream just stopped (load): indeterminate
+    if codes.count(0) != 1 or c.get("srv_sid2") != c.get("Sid2"):
+        wf = False
+    own = 100
+
+    def opts(e):
+        if e.get("direct"):
+            return "(mkOpts [100%N] [])"
+        return "(mkOpts %s %s)" % (nl(e.get("to")), nl(e.get("except")))
+
+    h = []
+    for e in c["emits"]:
+        if e["phase"] == 0:
+            h.append("(0%%Z, OBroadcast KEvent %s %s)" % (gN(e["tag"]), opts(e)))
+    if c.get("persisted"):
+        h.append("(0%%Z, OPersist (mkSess %s 1%%N %s))" % (gN(own), nl(sorted(c.get("joined") or []) + [own])))
+    h += ["(0%Z, OClean)"] * c.get("clean0", 0)
+    for e in c["emits"]:
+        if e["phase"] == 1:
+            h.append("(0%%Z, OBroadcast KEvent %s %s)" % (gN(e["tag"]), opts(e)))
+            h += ["(0%Z, OClean)"] * e.get("clean", 0)
+    same_sid = c.get("Sid2") == c.get("Sid1")
+    sid = own if same_sid else 200
+    pid2 = 1 if c.get("Pid2") == c.get("Pid1") else 2
+    rooms = []
+    for r in c.get("srv_rooms2") or []:
+        if r == c.get("srv_sid2"):
+            rooms.append(sid)
+        elif r.startswith("r") and r[1:].isdigit():
+            rooms.append(int(r[1:]))
+        else:
+            rooms.append(999)
+    off = c["offtag"] if c.get("offtag") else 900001
+    return "(%s, %s, (%s, 1%%N, %s), (%s, %s, %s, %s, %s, %s))" % (
+        gZ(c["window_ms"]), glist(h), gZ(c["elapsed_ms"]), gN(off),
+        gbool(c.get("srv_recovered", False)), gN(sid), gN(pid2), nl(rooms), nl(codes), gbool(wf))
+
+
+def live_suite(ctx, vh, name, args):
+    t0 = time.time()
+    rows = ctx.vh_jsonl(vh, "session", ["-mode", "live"] + args, timeout=600)
+    ctx.note("suite %s: harness %.1fs" % (name, time.time() - t0))
+    if rows is None:
+        return
+    keep, terms = [], []
+    for r in rows:
+        t = live_term(r)
+        if t is None:
+            ctx.indeterminate += 1
+        else:
+            keep.append(r)
+            terms.append(t)
+    for r in keep:
+        replay = [f["tag"] for f in (r.get("frames2") or []) if f["kind"] == "event" and f["tag"] > 0]
+        key = None
+        if (r.get("srv_recovered") and replay) or (not r.get("srv_recovered") and r.get("offtag")):
+            key = ("live", r["transport"], tuple(r.get("joined") or ()), r["offmode"], r["expire"], r["clean0"],
+                   tuple((e["tag"], tuple(e.get("to") or ()), tuple(e.get("except") or ()), e.get("direct"),
+                          e.get("bin"), e["phase"], e.get("clean")) for e in r["emits"]))
+        ctx.count(1, nontrivial_key=key, dist="%s:%s:%s" % (name, r["transport"],
+                                                           "recovered" if r.get("srv_recovered") else "fresh"))
+    if keep:
+        ctx.sample({"suite": "session/" + name, "case": keep[len(keep) // 2]}, limit=6)
+    bad_both = ctx.coq_eval_cases("live_both_" + name.replace("-", "_"), HDR, terms, "both_live", shard=100)
+    sub = [terms[i] for i in bad_both]
+    bad_oracle = [bad_both[j] for j in ctx.coq_eval_cases("live_oracle_" + name.replace("-", "_"), HDR, sub, "oracle_live", shard=100)]
+    bad_agree = [bad_both[j] for j in ctx.coq_eval_cases("live_agree_" + name.replace("-", "_"), HDR, sub, "agree_live", shard=100)]
+    enough = len(keep) >= max(3, len(rows) // 3)
+    ctx.obligation("correspondence:session/" + name, "correspondence", not bad_agree and enough,
+                   "%d live histories (%d indeterminate), %d disagree" % (len(keep), len(rows) - len(keep), len(bad_agree)))
+    ctx.obligation("oracle:session/" + name, "oracle", not bad_oracle and enough,
+                   "%d live histories, %d fail" % (len(keep), len(bad_oracle)))
+    if not enough:
+        ctx.violation("live recovery rig: only %d of %d runs completed (timeouts) - the end-to-end tie could not be "
+                      "established" % (len(keep), len(rows)),
+                      {"kind": "correspondence-broken", "suite": "session/" + name,
+                       "problems": [r.get("problems") for r in rows][:10]}, no_input=True)
+    for i in bad_oracle[:3]:
+        r = keep[i]
+        ctx.fail_or_known(None,
+                          "live: server with connection state recovery, client (%s) reconnecting with pid+offset of event "
+                          "%s after emits %s (clean-up passes: %d after the drop, %s): server says recovered=%s sid-same=%s "
+                          "rooms=%s, client got %s - violates the recovery property" % (
+                              r["transport"], r["offtag"],
+                              [(e["tag"], e.get("to"), e.get("except"), "direct" if e.get("direct") else "",
+                                "bin" if e.get("bin") else "", "ph%d" % e["phase"]) for e in r["emits"]],
+                              r["clean0"], [e.get("clean", 0) for e in r["emits"]], r.get("srv_recovered"),
+                              r.get("Sid1") == r.get("Sid2"), r.get("srv_rooms2"),
+                              [(f["kind"], f["tag"], f.get("att"), f.get("got"), f.get("raw")) for f in r.get("frames2") or []]),
+                          {"kind": "failing-input", "engine": "session -mode live", "suite": name, "case": r})
+    if bad_agree and not bad_oracle:
+        i = bad_agree[0]
+        ctx.violation("server socket layer no longer does what the model (Adapter/Session.v connect) does on a "
+                      "reconnection; first differing live history: %s" % json.dumps(keep[i])[:600],
+                      {"kind": "correspondence-broken", "suite": "session/" + name, "theorems": THEOREMS,
+                       "case": keep[i]}, no_input=True)
+
+
 def run(ctx):
     ctx.rule = ("histories of Broadcast(to/except, event / event-with-ack / ack) / PersistSession / clean-up pass / "
                 "RestoreSession / time steps on the real session-aware adapter; non-trivial = a restore succeeded with "
@@ -156,13 +284,19 @@ def run(ctx):
                    "wall clock read by the adapter: compared through abstract ticks with a half-tick safety margin"]
     ctx.assumptions = ["yeast offset ids handed out along a history are pairwise distinct (checked on every history)",
                        "time.Now() is non-decreasing"]
+    t0 = time.time()
     ctx.proofs(modules=["Adapter/SessionCheck"])
+    ctx.note("proofs+audit %.1fs" % (time.time() - t0))
+    t0 = time.time()
     vh = ctx.go_build()
+    ctx.note("go build %.1fs" % (time.time() - t0))
     if vh is None:
         return
     q = ctx.quick
     history_suite(ctx, vh, "exhaustive", ["-mode", "exhaustive", "-len", 4 if q else 5])
     history_suite(ctx, vh, "random", ["-mode", "random", "-seed", ctx.seed, "-n", 800 if q else 12000])
     history_suite(ctx, vh, "boundary", ["-mode", "boundary", "-tick", 20, "-par", 16])
+    live_suite(ctx, vh, "live", ["-seed", ctx.seed, "-n", 24 if q else 240, "-par", 6])
+    live_suite(ctx, vh, "live-binary", ["-seed", ctx.seed + 1, "-n", 16 if q else 160, "-par", 6, "-bin"])
     history_suite(ctx, vh, "timed", ["-mode", "timed", "-seed", ctx.seed, "-n", 150 if q else 1500, "-tick", 20,
                                      "-par", 16])
